@@ -163,6 +163,10 @@ Definition dbg_step (c : cfg) (v : ienv) : ienv * status :=
         end
     | [] =>
       let e := i_e v in
+      (* each script must end with a balanced conditional nesting *)
+      if negb (cs_empty (e_cond e)) && (i_p2sh v || (match i_succ v with [] => false | _ => true end))
+      then (upd v (set_err e SCRIPT_ERR_UNBALANCED_CONDITIONAL) [], SErr)
+      else
       if i_p2sh v then
         match e_stack e with
         | [] => (upd v (set_err e SCRIPT_ERR_EVAL_FALSE) [], SErr)
